@@ -109,7 +109,7 @@ def check_node_versions(ctx, rule):
             ev.step_budget = 2000000
             for tn in (False, True):
                 m, k = master_prv(testnet=T.const(tn))
-                w = T.obj(BW, dict(master=m, testnet=T.const(tn), mnemonic=T.NONE, password=T.NONE, bip85=T.NONE))
+                w = mk_wallet(p, be, m, T.const(tn), cls=BW)
                 for purpose in (44, 49, 84, 86, 7):
                     for coin in (0, 1):
                         path = [purpose + H, coin + H, 5 + H]
